@@ -10,6 +10,7 @@ import D2P.Props.C02Post
 import D2P.Props.C05Post
 import D2P.Props.C02PostAny
 import D2P.Props.C05PostAny
+import D2P.Props.C02PostNodup
 /-!
 # Open findings, as kernel-checked witnesses
 
@@ -234,6 +235,10 @@ theorem C05_post_any_witness :
       | .ok dc => (metaL dc.root).map (fun (m : Meta) => (m.1, m.2.2 == tableLineage)) | .error _ => [])
       = [(1, false), (14, true), (50, false)] ∧
     (postX false vmDoc).map (fun yc => (yc.1.id?, yc.2)) = [(some 1, false), (some 14, true), (some 24, true), (some 50, false)] := by
+  decide +kernel
+
+/-- the hypothesis of `C02_post_nodup` holds for the witness documents -/
+theorem uniqueIds_witness : uniqueIds nestDoc = true ∧ uniqueIds tblDoc = true ∧ uniqueIds vmDoc = true := by
   decide +kernel
 
 end D2P.Ex
